@@ -27,7 +27,7 @@ def sweep(h, rep, jobs, label, stats, on_result=None, max_report=3):
     """jobs: list of dict(name=..., kwargs for h.run). Lockstep-compares each; returns results.
     Divergence policy: I crashed where M did not -> property C01-style failure (found input);
     M and I differ otherwise -> tie broken, no failing input unless on_result finds one."""
-    res = vm_corr.run_many(h, [{k: v for k, v in j.items() if k not in ("name", "meta")} for j in jobs])
+    res = vm_corr.run_many(h, [{k: v for k, v in j.items() if k not in ("name", "meta", "group")} for j in jobs])
     reported = 0
     out = []
     judge = None
